@@ -148,6 +148,11 @@ protected:
      */
     const LoggerImpl *pFunc() const;
 
+#ifdef LIBCELLML_VERIF
+public:
+    const void *verifImpl() const { return mPimpl; } /**< Verification hook: identity of the implementation object, @private. */
+#endif
+
 private:
     LoggerImpl *mPimpl; /**< Private member to implementation pointer, @private. */
 };
